@@ -9,6 +9,7 @@ import S3V.Driver.Defer
 import S3V.Driver.Coord
 import S3V.Driver.Args
 import S3V.Driver.Chunk
+import S3V.Driver.Download
 
 namespace S3V.Driver
 
@@ -25,6 +26,7 @@ def step (st : DState) (line : String) : DState × String :=
   match toks with
   | ["reset"] => (DState.init, "ok")
   | "plan" :: rest => (st, planStep rest)
+  | "dl" :: rest => (st, dlStep rest)
   | "chunk" :: _ | "agg" :: _ => let r := chunkStep st.chunk toks; ({ st with chunk := r.1 }, r.2)
   | "args" :: rest => (st, argsStep rest)
   | "coord" :: rest => let r := coordStep st.coord rest; ({ st with coord := r.1 }, r.2)
